@@ -313,9 +313,14 @@ class C19(core.Prop):
 
             def angle_stub(v1, v2):
                 count['a'] += 1
+                if count['a'] > len(angles):
+                    # the symbolic run never got here: nothing recorded to replay with (not a finding about the code)
+                    raise symx.Unsupported('replay: no recorded angle for this call')
                 return angles[count['a'] - 1]
 
             def rot_stub(position, angle, origin=np.array([0, 0])):
+                if count['r'] >= len(rots):
+                    raise symx.Unsupported('replay: no recorded rotation for this call')
                 c, s_ = rots[count['r']]
                 count['r'] += 1
                 d = np.asarray(position) - origin
@@ -362,6 +367,20 @@ class C19(core.Prop):
 
     def oracle(self, shape, inp, obs):
         g = self._graph(shape)
+        concrete = not symx.is_sym(inp['bond'])
+        if (concrete and self._overapproximated(shape) and getattr(self, '_OR', None) is not None
+                and not getattr(self, '_in_real', False)):
+            # concrete replay of a shape whose angle / rotation / alignment kernels were over-approximated:
+            # the unmodified kernels decide, whatever the stub run did
+            self._in_real = True
+            try:
+                real = self.witness_clauses(self._OR, shape, inp)
+            finally:
+                self._in_real = False
+            stub_failed = obs[0] != 'ok' and obs[1] != 'ZeroDivisionError'
+            if all(c for _n, c in real) and stub_failed:
+                raise symx.Unsupported('failure only under the over-approximated kernels / replay stubs; not shown by the real ones')
+            return [('no_exception', True)] + real
         if obs[0] != 'ok':
             if obs[1] == 'ZeroDivisionError':
                 raise symx.PathAbort()       # mean bond length 0: outside the stub contract
